@@ -38,9 +38,10 @@ CLAIMED = {
         "lookup, block capacity and compressor obeying the round-trip law, the single-threaded path (parse_body byte machine -> "
         "VcdEncoder -> wavemem Encoder -> Reader::load_signal -> iter_changes) reports for a bit-vector variable of any width exactly "
         "what the parser's events record: index into the accepted time table, least state kind, characters, equal neighbours once "
-        "(on top of storage_transparent, C04); vcd_stream_transparent_rs is the same for real and string variables. Not covered by the "
-        "theorems: that the byte machine's events are the tokens of the text (properties of the machine are pinned under C15) and the "
-        "multi-threaded path (C03). Those, and the tie of the "
+        "(on top of storage_transparent, C04); vcd_stream_transparent_rs is the same for real and string variables; parse_body_lines / "
+        "vcd_lines_transparent start from the text: a body written one token group per line is parsed into exactly the events its lines "
+        "denote and reported accordingly. Not covered by the theorems: other layouts of the same tokens (several groups per line, CRLF, "
+        "indentation) and the multi-threaded path (C03). Those, and the tie of the "
         "model to vcd.rs/wavemem.rs, are decided by the correspondence run: the extracted model against the real loader on generated "
         "files, plus the oracle computed from the abstract history; exhaustive sweeps over every byte as value character and every "
         "(width, written length, leading character).",
